@@ -1639,11 +1639,11 @@ Proof.
 Qed.
 
 (* ---------- regex targets: what _filter_tasks builds and what the loader branch does with it ---------- *)
-Lemma filter_one_single base_of is_rx rmatch rx_name auto s f k T :
+Lemma filter_one_single sv base_of is_rx rmatch rx_name auto s f k T :
   q_tab (ss_d s) f = None -> q_tg (ss_d s) f = None -> q_tab (ss_d s) (base_of f) = None ->
-  matched is_rx rmatch auto (ss_d s) (ss_order s) f = [k] ->
+  matched sv is_rx rmatch auto (ss_d s) (ss_order s) (ss_sub s) f = [k] ->
   dt_loader (tab_get (ss_d s) k) = Some T ->
-  exists s', filter_one base_of is_rx rmatch rx_name auto s f = Some s' /\
+  exists s', filter_one sv base_of is_rx rmatch rx_name auto s f = Some s' /\
     let nm := rx_name f k in
     q_torun (ss_d s') = q_torun (ss_d s) ++ [nm] /\
     q_rxg (ss_d s') nm = Some (ss_gnext s) /\
@@ -1723,3 +1723,146 @@ Proof. intro H. unfold create_part, loader_read. rewrite H. reflexivity. Qed.
 
 Lemma not_found_exit r f : exit_code r (StopNotFound f) = 3.
 Proof. reflexivity. Qed.
+
+(* ====================================================================================== *)
+(* C15: the created task that takes over the node of its placeholder (ExecNode.reset_task,  *)
+(* control.py 322-327) is dispatched like a statically defined task                        *)
+(* ====================================================================================== *)
+(* after a successful pass through the loader branch the node of `me` is, in every field the generator of _add_task reads
+   to find the next dependency (task object, pending and accumulated task_dep / calc_dep, position), the node a fresh
+   ExecNode(tasks[me]) would be: in particular the pending calc_dep set is the task's own calc_dep (the seeded change C15c
+   drops exactly this assignment).  What the node keeps from the placeholder: ancestors, waiting_me, run_status,
+   bad_deps / ignored_deps (see C15_created_subtask_keeps_failed_trigger_refuted) *)
+Lemma load_branch_reset_fresh v keys creators d me T d' :
+  load_branch v keys creators d me T = LReset d' ->
+  forall anc, let t := tab_get d' me in let nd := node_of d' me in let fresh := new_node anc me t in
+  dt_loader t = None /\ dn_task nd = t /\
+  dn_pt nd = dn_pt fresh /\ dn_pcl nd = dn_pcl fresh /\ dn_at nd = dn_at fresh /\ dn_ac nd = dn_ac fresh /\
+  dn_pc nd = dn_pc fresh /\ dn_pcl nd = t_calc_dep (dt t) /\ dn_pt nd = t_task_dep (dt t).
+Proof.
+  intros H anc. destruct (load_branch_reset _ _ _ _ _ _ _ H) as [d5 R]. destruct R as [E _ _ _ _ _ M _ _].
+  subst d'. cbv zeta.
+  assert (Et : tab_get (set_node d5 me (nd_reset (node_of d5 me) (tab_get d5 me))) me = tab_get d5 me) by reflexivity.
+  rewrite Et, node_of_set_same. simpl. repeat split; auto.
+Qed.
+
+Section ResetCalc.
+Variable v : variant.
+Variable keys : list name.
+Variable creators : N -> name -> list (name * dtask).
+Variable calc_rank : name -> N.
+Notation gen_step := (gen_step v keys creators calc_rank).
+
+Lemma gen_step_start f d me :
+  dn_pc (node_of d me) = QStart -> dt_loader (dn_task (node_of d me)) = None ->
+  gen_step (S f) d me = gen_step f (set_pc d me QLoop) me.
+Proof. intros H1 H2. cbn [Delayed.gen_step]. rewrite H1, H2. reflexivity. Qed.
+
+Lemma gen_step_loop f d me :
+  dn_pc (node_of d me) = QLoop ->
+  gen_step (S f) d me =
+  let nd := node_of d me in let calcs := sort_by calc_rank (dn_pcl nd) in
+  gen_step f (set_node d me (nd_pc (nd_deps nd [] [] (dn_at nd) (dn_ac nd)) (QCalc calcs calcs (dn_pt nd)))) me.
+Proof. intros H1. cbn [Delayed.gen_step]. rewrite H1. reflexivity. Qed.
+
+Lemma gen_step_calc_new f d me c r calcs tks :
+  dn_pc (node_of d me) = QCalc (c :: r) calcs tks -> q_nodes d c = None ->
+  fst (gen_step (S f) d me) = YNode c.
+Proof. intros H1 H2. cbn [Delayed.gen_step]. rewrite H1. unfold gen_node. rewrite H2. reflexivity. Qed.
+
+(* ... so a created task that takes over the node of its placeholder is ordered after its calc_dep tasks exactly like a
+   statically defined one: the first thing the restarted generator does is to instantiate the node of its first
+   calc_dep (in the iteration order of the set) *)
+Lemma reset_then_calc_dep_first d me T d' c r fuel :
+  load_branch v keys creators d me T = LReset d' ->
+  sort_by calc_rank (t_calc_dep (dt (tab_get d' me))) = c :: r ->
+  c <> me -> q_nodes d' c = None ->
+  fst (gen_step (S (S (S fuel))) d' me) = YNode c.
+Proof.
+  intros H Hs Hc Hn.
+  destruct (load_branch_reset_fresh _ _ _ _ _ _ _ H []) as (L & Et & _ & _ & _ & _ & Epc & Ecl & _).
+  cbv zeta in *. simpl in Epc.
+  rewrite gen_step_start; [|exact Epc|rewrite Et; exact L].
+  rewrite gen_step_loop; [|unfold set_pc; rewrite node_of_set_same; reflexivity].
+  cbv zeta. unfold set_pc. rewrite node_of_set_same. cbn [dn_pcl nd_pc]. rewrite Ecl, Hs.
+  eapply gen_step_calc_new.
+  - rewrite node_of_set_same. reflexivity.
+  - simpl. unfold upd. destruct (N.eqb_spec c me); [contradiction|]. exact Hn.
+Qed.
+End ResetCalc.
+
+(* ====================================================================================== *)
+(* C15: _filter_tasks after the repair 01f48fb -- a placeholder made for a `basename:sub`   *)
+(* word is never taken for a task-creator by the target_regex / --auto-delayed-regex loop  *)
+(* ====================================================================================== *)
+Section SubPlaceholders.
+Variable base_of : name -> name.
+Variable is_rx : name -> bool.
+Variable rmatch : name -> name -> bool.
+Variable rx_name : name -> name -> name.
+Variable auto : bool.
+Notation matched := (matched SelHead is_rx rmatch auto).
+Notation filter_one := (filter_one SelHead base_of is_rx rmatch rx_name auto).
+Notation filter_tasks := (filter_tasks SelHead base_of is_rx rmatch rx_name auto).
+
+Lemma matched_skips_sub d order sub f w : In w sub -> ~ In w (matched d order sub f).
+Proof.
+  intros Hw H. unfold Delayed.matched in H. apply filter_In in H. destruct H as [_ H].
+  destruct (dt_loader (tab_get d w)); [|discriminate].
+  destruct (is_rx w); [discriminate|].
+  unfold skip_sub in H. rewrite (proj2 (mem_In w sub) Hw) in H. discriminate.
+Qed.
+
+(* [w] is a recorded by-name placeholder and no RegexGroup contains it *)
+Definition sub_clean (w : name) (s : sstate) : Prop :=
+  In w (ss_sub s) /\ forall g, ~ In w (g_tasks (q_grp (ss_d s) g)).
+
+Lemma add_rx_fold_keeps g f ms : forall s,
+  ss_sub (fold_left (add_rx rx_name g f) ms s) = ss_sub s /\
+  q_grp (ss_d (fold_left (add_rx rx_name g f) ms s)) = q_grp (ss_d s).
+Proof.
+  induction ms as [|k r IH]; intro s; simpl; [auto|].
+  destruct (IH (add_rx rx_name g f s k)) as [E1 E2]. rewrite E1, E2.
+  unfold add_rx. destruct (dt_loader (tab_get (ss_d s) k)); simpl; auto.
+Qed.
+
+Lemma filter_one_sub_clean w s f s' : sub_clean w s -> filter_one s f = Some s' -> sub_clean w s'.
+Proof.
+  intros [Hs Hg] H. unfold Delayed.filter_one in H.
+  destruct (q_tab (ss_d s) f); [inversion H; subst; split; simpl; auto|].
+  destruct (q_tg (ss_d s) f); [inversion H; subst; split; simpl; auto|].
+  destruct (q_tab (ss_d s) (base_of f)) as [tb|].
+  - destruct (dt_loader tb); [|discriminate]. inversion H; subst. split; simpl; auto.
+  - match type of H with context [is_nil ?m] => destruct (is_nil m); [discriminate|] end.
+    inversion H; subst. clear H.
+    match goal with |- sub_clean w (fold_left ?F ?ms ?s0) => destruct (add_rx_fold_keeps (ss_gnext s) f ms s0) as [E1 E2] end.
+    split.
+    + rewrite E1. exact Hs.
+    + intro g. rewrite E2. simpl. unfold upd. destruct (N.eqb g (ss_gnext s)); simpl.
+      * apply matched_skips_sub. exact Hs.
+      * apply Hg.
+Qed.
+
+Lemma filter_tasks_sub_clean w fs : forall s s', sub_clean w s -> filter_tasks s fs = Some s' -> sub_clean w s'.
+Proof.
+  induction fs as [|f r IH]; intros s s' C H; simpl in H.
+  - inversion H; subst. exact C.
+  - destruct (filter_one s f) as [s1|] eqn:E; [|discriminate].
+    eapply IH; [|exact H]. eapply filter_one_sub_clean; eauto.
+Qed.
+
+(* the word w is selected as a sub-task of a delayed task (control.py 214-223): from then on ... *)
+Lemma subtask_word_never_in_regex_group s w tb T s1 fs s2 :
+  q_tab (ss_d s) w = None -> q_tg (ss_d s) w = None -> q_tab (ss_d s) (base_of w) = Some tb -> dt_loader tb = Some T ->
+  (forall g, ~ In w (g_tasks (q_grp (ss_d s) g))) ->
+  filter_one s w = Some s1 -> filter_tasks s1 fs = Some s2 ->
+  In w (ss_sub s2) /\ (forall g, ~ In w (g_tasks (q_grp (ss_d s2) g))) /\
+  (forall f, ~ In w (matched (ss_d s2) (ss_order s2) (ss_sub s2) f)).
+Proof.
+  intros H1 H2 H3 H4 Hg E1 E2.
+  assert (C1 : sub_clean w s1).
+  { unfold Delayed.filter_one in E1. rewrite H1, H2, H3, H4 in E1. inversion E1; subst. split; simpl; auto. }
+  destruct (filter_tasks_sub_clean w fs s1 s2 C1 E2) as [A B].
+  split; [exact A|]. split; [exact B|]. intro f. apply matched_skips_sub. exact A.
+Qed.
+End SubPlaceholders.
